@@ -133,7 +133,7 @@ func vcyc(value, n int) int {
 // for a negative value of a style that uses the negative sign — the lengths of BOTH parts
 // of the negative sign; step 5: prefix + representation + suffix.
 //@ func (CounterStyle).renderValue
-//@   props C19
+//@   props C19 C01
 //@   modifies anything
 //@   call Repeat#1 assert arg1 == pad.Int - len(initial) - ite(isNegative && useNegative, len(negativePrefix) + len(negativeSuffix), 0)
 // §3.1: each system is rendered by its own algorithm, on the (sign-stripped) value
